@@ -355,6 +355,9 @@ def props_of(conj, sig, group):
         return {'C07', 'C01', 'C02'}
     if conj in ('class', 'value', 'effect', 'initmatch', 'populate'):
         ps.add('C01')
+        # C12: the classes the properties pin (not-found, file-/directory-exists, not-supported, invalid-path)
+        if conj == 'class' and sig.get('want') in (['notfound'], ['file_exists'], ['dir_exists'], ['not_supported'], ['invalid_path']):
+            ps.add('C12')
         if kind == 'ovl':
             ps.add('C09')
             ps.add('C10')
